@@ -85,6 +85,18 @@ class TwinGen(Gen):
             if not other:
                 return rs, ra
             return self.both(rs, ra, {'op': ch, 'other': other}, inplace_only=(ch == 'iadd'))
+        if ch == 'join' and r() < 0.3:
+            # all-plain-str arguments, some carrying raw escape sequences left open at their end
+            items = []
+            for _ in range(self.rng.randint(1, 3)):
+                t = self.rng.choice(['\x1b[1mw:', 'ab\x1b[31m', 'x', '\x1b[mz', self.text()])
+                items.append(self.do({'op': 'lit', 'text': t})['res'][0])
+            es = self.do({'op': 'join', 'cls': 'S', 'items': items})
+            ea = self.do({'op': 'join', 'cls': 'A', 'items': items})
+            if es['out'] == 'ok' and ea['out'] == 'ok':
+                self.do({'op': 'twincheck', 'a': ea['res'], 'b': es['res']})
+                return es['res'][0], ea['res'][0]
+            return rs, ra
         if ch == 'join':
             items = [self.pick('SAP') for _ in range(self.rng.randint(1, 3))]
             es = self.do({'op': 'join', 'cls': 'S', 'items': [rs] + items})
